@@ -46,11 +46,57 @@ func (g *generator) run(r *runner) {
 	for i := 0; i < n; i++ {
 		id := fmt.Sprintf("%s-%d-%d", g.prop, g.seed, i)
 		c := g.newCase(g.prop, i)
+		if len(c.fixed) == 0 && c.cfg.Lvl == 1 && g.chance(4) {
+			g.burst(c)
+		}
 		r.runCase(id, c.cfg, c)
 	}
 	if g.tier == "thorough" && (g.prop == "C08" || g.prop == "all") {
 		g.exhaustiveIter(r, n)
 	}
+}
+
+// burst: grow the container to 62..150 elements first (ArrayList capacity thresholds, deep trees,
+// long chains), then Clear or remove most of them, then continue with the case's own plan.  Sizes
+// that small random histories never reach, and the transitions back from them.
+func (g *generator) burst(c *caseGen) {
+	kind := c.cfg.Kind
+	n := g.between(62, 150)
+	grow := mutators(kind)[0].name // Add / Push / Enqueue / Put
+	shrinkName := ""
+	for _, m := range mutators(kind) {
+		switch m.name {
+		case "RemoveAt", "Pop", "Dequeue", "Remove", "RemoveVals":
+			shrinkName = m.name
+		}
+	}
+	// keyed kinds need a universe that can hold n distinct keys
+	if isSetKind(kind) || isKVKind(kind) {
+		c.U = n + g.between(2, 20)
+		c.VU = c.U
+		c.cfg.Uni = c.U
+		c.lo, c.hi = -1, c.U+1
+		c.order = g.pick([]string{"ascending", "descending", "zigzag", "random"})
+	}
+	c.maxVar = 3
+	plan := make([]string, 0, n+len(c.plan)+80)
+	for i := 0; i < n; i++ {
+		plan = append(plan, grow)
+	}
+	switch x := g.intn(100); {
+	case x < 55:
+		plan = append(plan, "Clear")
+	case x < 85 && shrinkName != "":
+		for i := 0; i < n-g.between(0, 6); i++ {
+			plan = append(plan, shrinkName)
+		}
+	}
+	rest := c.plan
+	if len(rest) > 25 {
+		rest = rest[:25]
+	}
+	c.plan = append(plan, rest...)
+	c.cfg.Extra += " burst=" + fmt.Sprint(n)
 }
 
 // ---------- small random helpers ----------
